@@ -4,3 +4,4 @@ files that hold C12's property theorems (C12, C12b, C12c); it states nothing.
 -/
 import AutomataVerif.Props.C12b
 import AutomataVerif.Props.C12c
+import AutomataVerif.Props.C12d
